@@ -68,8 +68,8 @@ LEVELS = {
         "note": TB + "Premises: VrfUnique; honest tree (validated for the code by the full-state correspondence of C01). Hash assumptions only as the disjunct Bad.",
     },
     "C07": {
-        "text": "Machine-checked theorems: in Default mode a verifying COMPLETE history proof yields exactly the label's true account newest first (nothing hidden at either end, no gaps, duplicates, reordering, wrong values or epochs) and a verifying MostRecent(r) proof yields exactly the newest min(r, n) true entries, or a collision is exhibited; and for every parameter each accepted entry is a true version with its true value and epoch. Uses the marker theorem (n+1 is always a future marker) and non-membership soundness. Verifier model tied to the code on adversarial histories incl. tombstones and late/missing stale markers; known finding K2 (tombstoned version 1 carries an unauthenticated epoch) is reproduced on the real code and listed.",
-        "note": TB + "PARTIAL: the AllowMissingValues statement outside K2 and the late-stale-marker rejection are decided by correspondence + oracle.",
+        "text": "Machine-checked theorems for ALL history proofs (arbitrary bytes in every field): in Default mode a verifying COMPLETE history proof yields exactly the label's true account newest first (nothing hidden at either end, no gaps, duplicates, reordering, wrong values or epochs) and a verifying MostRecent(r) proof yields exactly the newest min(r, n) true entries, or a collision is exhibited; for every parameter each accepted entry is a true version with its true value and epoch. With AllowMissingValues (the client opted in) the same holds with each entry reported either as it is or as a tombstone carrying the TRUE epoch - except that a tombstoned version 1 may carry any epoch, which is exactly the known finding K2 (reproduced on the real code, listed, and now the precise boundary of the theorem). Uses the marker theorem (n+1 is always a future marker), non-membership soundness and the binding of the stale leaf's epoch. Verifier model tied to the code on adversarial histories incl. tombstones and late/missing stale markers.",
+        "note": TB + "Premises: VrfUnique; honest tree incl. the stale leaves' values and epochs (validated for the code by the full-state correspondence of C01). Trees on which a superseded version is retired late or never are outside the theorems' premise and decided by the adversarial harness.",
     },
     "C10": {
         "text": "Machine-checked theorem over the storage-manager model, generic in the program a publish runs inside its transaction: begin; ANY sequence of storage operations with ANY database call rejected and ANY cache evictions; then rollback, a commit the database rejects, or a commit refused for lack of an epoch record => database unchanged, no transaction open, log empty, cache coherent (so every later read answers as before). On the implementation, exhaustive fault enumeration over every storage operation index of publishes of every shape, cached/uncached, sequential/parallel, with database comparison and retry-equals-twin; three genuine defects found this way (cache filled before a rejected write; root hash read after commit; detached insertion task writing after rollback) were repaired.",
